@@ -73,7 +73,16 @@ class PyFileWriter(AbstractWriter):
 
         try:
             fd, tfile = tempfile.mkstemp(dir=self._path)
-            os.write(fd, encode(data))
+
+            octets = encode(data)
+            while octets:
+                # os.write() may write less than asked for
+                written = os.write(fd, octets)
+                if not written:
+                    raise IOError('short write to %s' % tfile)
+
+                octets = octets[written:]
+
             os.close(fd)
             os.rename(tfile, pyfile)
 
